@@ -51,4 +51,4 @@ Definition verdict (id : N) (c : rcase) : list (list N) :=
       (match rc_e2e c with Some (l, _) => Some (0, l) | None => None end) (rc_first c) in
   let v3 := judge (c18_ok pd (rc_ftags c) (rc_rtags c) (rc_stags c) mc (rc_e2e c) && first_ok)
                   (retry_opts_eqb m3 (rc_e2e c)) known in
-  [row id 1 v1; row id 2 v2; row id 3 v3].
+  [vrow id 1 v1; vrow id 2 v2; vrow id 3 v3].
